@@ -78,6 +78,9 @@ class Inv:
         self.err = ""
         self.new: Dict[str, str] = {}
 
+    def clone(self) -> "Inv":
+        return Inv(self.files, self.mainfile, self.lang, self.opts, self.layout, self.outdir)
+
     def describe(self) -> Dict[str, Any]:
         return {"argv": ["python", "-m", "bitproto._main"] + self.argv, "cwd": "<dir>",
                 "source_files_in": "<dir>/src" if self.layout == "sub" else "<dir>",
@@ -805,10 +808,33 @@ def check_filter(run: common.Run, rng: random.Random, pool: Pool, nprog: int, ns
                 invs += [a, b]
         pool.execute(invs)
         for en in batch:
-            eval_filter_entry(run, en)
+            eval_filter_entry(run, en, pool)
 
 
-def eval_filter_entry(run: common.Run, en: Dict[str, Any]) -> None:
+def filtered_defects(fp: FilterProgram, lang: str, base: str, ref: Inv, std: Optional[Inv], inv: Inv, names: List[str],
+                     cnt: Dict[str, int]) -> Optional[List[Dict[str, Any]]]:
+    """discrepancies of one `-O -F names` invocation against its reference invocations; None when a control failed"""
+    if not accepted(ref, base):
+        return None
+    refp = parse_c(ref) if lang == "c" else parse_go(ref)
+    stdp = None
+    if std is not None and accepted(std, base):
+        stdp = parse_c(std) if lang == "c" else parse_go(std)
+    if refp is None:
+        return None
+    model_ok = sorted(fkey(lang, f[0]) for f in refp["funcs"]) == expected_keys(fp, lang, None)
+    if not accepted(inv, base):
+        return [{"what": "-O -F invocation did not generate the files that -O generates", **inv.observed()}]
+    got = parse_c(inv) if lang == "c" else parse_go(inv)
+    assert got is not None
+    bad = compare_filtered(fp, lang, refp, stdp, got, names, cnt, model_ok)
+    extra = sorted(set(os.path.basename(x) for x in inv.new) - set(expected_outputs(base, lang)))
+    if extra:
+        bad.append({"what": "unexpected extra files", "files": extra})
+    return bad
+
+
+def eval_filter_entry(run: common.Run, en: Dict[str, Any], pool: Pool) -> None:
     fp: FilterProgram = en["fp"]
     base = en["base"]
     cnt = schema_counts(fp.main)
@@ -849,15 +875,19 @@ def eval_filter_entry(run: common.Run, en: Dict[str, Any]) -> None:
             run.nontrivial(("d", lang, e, kind, bool(fp.prefix), tuple(sorted(fp.relations)), len(sel), len(msgs),
                             any(m.parent is not None for m in sel), text != ",".join(names)))
             run.sample({"part": "d", "argv": inv.argv, "reference_argv": ref.argv, "messages": [".".join(G.scope_names(m)) for m in msgs]}, limit=4)
-            if not accepted(inv, base):
-                bad = [{"what": "-O -F invocation did not generate the files that -O generates", **inv.observed()}]
-            else:
-                got = parse_c(inv) if lang == "c" else parse_go(inv)
-                assert got is not None
-                bad = compare_filtered(fp, lang, refp, std_parsed.get(lang), got, names, cnt, model_ok)
-                extra = sorted(set(os.path.basename(x) for x in inv.new) - set(expected_outputs(base, lang)))
-                if extra:
-                    bad.append({"what": "unexpected extra files", "files": extra})
+            bad = filtered_defects(fp, lang, base, ref, en["std"][lang], inv, names, cnt)
+            if bad:
+                # confirm on a fresh, serial re-execution of the three invocations: an alarm must be reproducible
+                # (a busy machine / a cleaned temp dir must not produce one)
+                r2, s2, i2 = ref.clone(), en["std"][lang].clone(), inv.clone()
+                pool.execute([r2, s2, i2])
+                bad2 = filtered_defects(fp, lang, base, r2, s2, i2, names, cnt)
+                if not bad2:
+                    run.count("unconfirmed_on_rerun")
+                    run.notes.setdefault("unconfirmed_on_rerun", []).append({"argv": inv.argv, "first": bad[:2]})
+                    bad = []
+                else:
+                    bad, inv = bad2, i2
             if bad:
                 run.violation({
                     "kind": "impl-vs-spec", "part": "d: -O -F names vs -O",
@@ -870,10 +900,10 @@ def eval_filter_entry(run: common.Run, en: Dict[str, Any]) -> None:
                     "observed_impl": bad[:4],
                 }, suffix=f"part=d lang={lang} endian={e} what={bad[0]['what']!r}")
     for (part, inv, ctl) in en["refusals"]:
-        eval_refusal(run, part, inv, ctl, base, fp.files, {"program": "marker-free"})
+        eval_refusal(run, pool, part, inv, ctl, base, fp.files, {"program": "marker-free"})
 
 
-def eval_refusal(run: common.Run, part: str, inv: Inv, ctl: Optional[Inv], base: str, files: Dict[str, str], extra: Dict[str, Any],
+def eval_refusal(run: common.Run, pool: Pool, part: str, inv: Inv, ctl: Optional[Inv], base: str, files: Dict[str, str], extra: Dict[str, Any],
                  ctl_files: Optional[Dict[str, str]] = None) -> bool:
     """True when the case was evaluated (control accepted)"""
     if ctl is not None and not accepted(ctl, base):
@@ -889,6 +919,19 @@ def eval_refusal(run: common.Run, part: str, inv: Inv, ctl: Optional[Inv], base:
     run.nontrivial((part, inv.lang, inv.layout, inv.outdir, has_f, tuple(en), tuple(sorted(extra.items()))))
     run.sample({"part": part, "argv": inv.argv, **extra}, limit=8)
     bad = refusal_defects(inv, ctl)
+    if bad:
+        # confirm on a fresh re-execution (see eval_filter_entry)
+        i2, c2 = inv.clone(), (ctl.clone() if ctl is not None else None)
+        pool.execute([i2] + ([c2] if c2 is not None else []))
+        if c2 is not None and not accepted(c2, base):
+            bad = []
+        else:
+            bad = refusal_defects(i2, c2)
+        if not bad:
+            run.count("unconfirmed_on_rerun")
+            run.notes.setdefault("unconfirmed_on_rerun", []).append({"argv": inv.argv, "part": part})
+        else:
+            inv, ctl = i2, c2
     if bad:
         run.violation({
             "kind": "impl-vs-spec", "part": part,
@@ -985,13 +1028,13 @@ def check_markers(run: common.Run, rng: random.Random, pool: Pool, ncase: int, c
                 run.count("a.control_failed.unmarked")
                 run.notes.setdefault("controls_failed", []).append({"part": "a", "argv": en["unmarked"].argv, **en["unmarked"].observed()})
                 continue
-            if eval_refusal(run, "a:ext-marker-under-O", en["refused"], en["noO"], en["base"], en["marked"], info):
+            if eval_refusal(run, pool, "a:ext-marker-under-O", en["refused"], en["noO"], en["base"], en["marked"], info):
                 if info["family"] == "single":
                     run.count(f"a.site.{info['site']}.depth{info['file_depth']}")
                 else:
                     run.count("a.many-markers")
             if en["fonly"] is not None:
-                eval_refusal(run, "c:F-without-O", en["fonly"][0], en["fonly"][1], en["base"], en["marked"], {"program": "extensible"})
+                eval_refusal(run, pool, "c:F-without-O", en["fonly"][0], en["fonly"][1], en["base"], en["marked"], {"program": "extensible"})
 
 
 # ------------------------------------------------------------------------------ entry
